@@ -1009,4 +1009,3 @@ func forceInconclusive(c *core.Ctx, what string) {
 		c.Inconclusive(what)
 	}
 }
-
